@@ -35,22 +35,22 @@ Definition s_slashstar : str := [47; 42].
 
 Definition nonempty (s : str) : bool := match s with [] => false | _ => true end.
 
-(* util.DropPort; None = run-time panic (slice bounds out of range) *)
-Definition drop_port (h : str) : option str :=
+(* util.DropPort *)
+Definition drop_port (h : str) : str :=
   match h with
-  | [] => Some []
+  | [] => []
   | c :: _ =>
     if N.eqb c 91 (* '[' *) then
       match last_index_byte h 93 (* ']' *) with
-      | Some i => if Nat.leb 1 i then Some (firstn (i - 1) (skipn 1 h)) else None
-      | None => None
+      | Some i => firstn (i - 1) (skipn 1 h)
+      | None => h
       end
     else if negb (N.eqb c 58) then
       match last_index_byte h 58 with
-      | Some i => Some (firstn i h)
-      | None => Some h
+      | Some i => firstn i h
+      | None => h
       end
-    else Some h
+    else h
   end.
 
 Definition s_https : str := [104; 116; 116; 112; 115].
